@@ -23,13 +23,26 @@ a call into vgi_rpc):
 from __future__ import annotations
 
 import asyncio
+import hashlib
+import io
 import logging
+import sys
+import threading
+from pathlib import Path
 from types import SimpleNamespace
 from typing import Any
 from urllib.parse import urlsplit
 
 from hypothesis import strategies as st
 
+try:  # tenacity is imported lazily by vgi_rpc.external.resolve_external_location and is not installed here
+    import tenacity  # noqa: F401
+except ImportError:
+    sys.path.append(str(Path(__file__).resolve().parent.parent / "shims"))
+
+import pyarrow as pa
+
+import vgi_rpc.external as ext_mod
 import vgi_rpc.external_fetch as ef
 from lib.c31_fake import FakeClient, Origin, VirtualLoop, encode, host_scheme, make_payload
 from lib.harness import Check, Outcome
@@ -68,6 +81,8 @@ LEVEL_TEXT = (
 LEVEL_NOTE = "Fake aiohttp-shaped client on a virtual clock; real sockets, fetch_url's pool thread and tenacity retries not exercised."
 
 MARK = "SEKRET"
+RSCHEMA = pa.schema([("v", pa.binary())])
+RESOLVED_OK = b"<resolved to the stored batch>"
 
 
 # --------------------------------------------------------------------------- pure helpers (oracle side)
@@ -187,7 +202,16 @@ def run_case(case: dict[str, Any]) -> Outcome:
     script = case["script"]
     vspec = case["validator"]
 
+    via = case.get("via", "probe")
     D = make_payload(obj["size"], obj["kind"], obj["seed"])
+    orig_batch = None
+    if via == "resolve":
+        # the object is an Arrow IPC stream holding one data batch, as ExternalStorage.upload() would have stored it
+        orig_batch = pa.RecordBatch.from_pydict({"v": [D, b"tail"]}, schema=RSCHEMA)
+        sink = io.BytesIO()
+        with pa.ipc.new_stream(sink, RSCHEMA) as w:
+            w.write_batch(orig_batch)
+        D = sink.getvalue()
     ce = obj["ce"]
     E = encode(D, ce)
     n = len(E)
@@ -228,34 +252,83 @@ def run_case(case: dict[str, Any]) -> Outcome:
     ef.time = SimpleNamespace(monotonic=loop.time, time=loop.time, sleep=lambda s: None)  # type: ignore[assignment]
     result: bytes | None = None
     error: BaseException | None = None
-    try:
-        asyncio.set_event_loop(loop)
+    validator = make_validator(vspec)
+    if via == "probe":
         try:
-            validator = make_validator(vspec)
-            coro = ef._fetch_with_probe(url, config, client, validator)  # type: ignore[arg-type]
-            result = loop.run_until_complete(coro)
-        except asyncio.CancelledError as e:
-            error = e
-        except Exception as e:
-            error = e
-    finally:
-        ef.time = old_time
-        root.removeHandler(cap)
-        root.setLevel(old_level)
-        root.propagate = old_prop
-        try:
-            pending = [t for t in asyncio.all_tasks(loop) if not t.done()]
-            for t in pending:
-                t.cancel()
-            if pending:
-                loop.run_until_complete(asyncio.gather(*pending, return_exceptions=True))
+            asyncio.set_event_loop(loop)
+            try:
+                coro = ef._fetch_with_probe(url, config, client, validator)  # type: ignore[arg-type]
+                result = loop.run_until_complete(coro)
+            except asyncio.CancelledError as e:
+                error = e
+            except Exception as e:
+                error = e
         finally:
-            asyncio.set_event_loop(None)
-            loop.close()
-    try:
-        config.close()
-    except Exception:
-        pass
+            ef.time = old_time
+            root.removeHandler(cap)
+            root.setLevel(old_level)
+            root.propagate = old_prop
+            try:
+                pending = [t for t in asyncio.all_tasks(loop) if not t.done()]
+                for t in pending:
+                    t.cancel()
+                if pending:
+                    loop.run_until_complete(asyncio.gather(*pending, return_exceptions=True))
+            finally:
+                asyncio.set_event_loop(None)
+                loop.close()
+        try:
+            config.close()
+        except Exception:
+            pass
+    else:
+        # resolve_external_location -> tenacity retries -> fetch_url -> (pool thread running the virtual loop) ->
+        # _fetch_with_probe.  The pool is pre-populated so no real aiohttp session / network is ever created.
+        thread = threading.Thread(target=loop.run_forever, daemon=True, name="c31-virtual-loop")
+        thread.start()
+        pool = config._pool
+        pool.loop, pool.thread, pool.session = loop, thread, client  # type: ignore[assignment]
+        old_create = ef._create_session
+
+        async def _fake_session(timeout: Any) -> Any:
+            return FakeClient(origin)
+
+        ef._create_session = _fake_session  # type: ignore[assignment]
+        old_ext_time = ext_mod.time
+        ext_mod.time = SimpleNamespace(monotonic=loop.time, time=loop.time, sleep=lambda s: None)  # type: ignore[assignment]
+        try:
+            md = {b"vgi_rpc.location": url.encode()}
+            if case.get("sha", True):
+                md[b"vgi_rpc.location.sha256"] = hashlib.sha256(D).hexdigest().encode()
+            pointer = pa.RecordBatch.from_arrays([pa.array([], type=pa.binary())], schema=RSCHEMA)
+            xcfg = ext_mod.ExternalLocationConfig(
+                storage=None, max_retries=int(case.get("retries", 2)), retry_delay_seconds=0.0, fetch_config=config, url_validator=validator
+            )
+            try:
+                got, _got_md = ext_mod.resolve_external_location(pointer, pa.KeyValueMetadata(md), xcfg)
+                same = orig_batch is not None and got.schema.equals(RSCHEMA) and got.to_pydict() == orig_batch.to_pydict()
+                result = RESOLVED_OK if same else b"<a different batch>"
+            except asyncio.CancelledError as e:
+                error = e
+            except Exception as e:
+                error = e
+            except BaseException as e:  # concurrent.futures.CancelledError after a stall
+                error = e
+        finally:
+            ef.time = old_time
+            ext_mod.time = old_ext_time
+            ef._create_session = old_create  # type: ignore[assignment]
+            root.removeHandler(cap)
+            root.setLevel(old_level)
+            root.propagate = old_prop
+            try:
+                config.close()
+            finally:
+                if thread.is_alive():
+                    loop.call_soon_threadsafe(loop.stop)
+                    thread.join(timeout=10)
+                if not loop.is_closed():
+                    loop.close()
 
     log = origin.log
     path = "parallel" if origin.kind_counts.get("chunk") else "single"
@@ -316,7 +389,12 @@ def run_case(case: dict[str, Any]) -> Outcome:
         ext = full_get[-1]["resp"]
         acceptable = None if ce_header else ext.slice(0, ext.total_len)
     lying = _lying(script, u)
-    if result is not None and acceptable is not None:
+    if via == "resolve" and result is not None:
+        if result is not RESOLVED_OK:
+            out.fail(f"resolve_wrong_batch/{probe}/{path}/{'+'.join(lying) or 'honest'}", "resolve_external_location returned a batch that differs from the stored one")
+        elif n > max_fetch:
+            out.fail(f"max_fetch_exceeded/resolve/{probe}/{path}", f"resolved although encoded size {n} > max_fetch_bytes={max_fetch}")
+    elif result is not None and acceptable is not None:
         if result != acceptable:
             how = "truncated" if acceptable.startswith(result) else ("extended" if result.startswith(acceptable) else "different")
             understated = how == "truncated" and any(x in ("head_cl_small", "head_cl_abs", "probe_206_total_small") for x in lying)
@@ -363,6 +441,7 @@ def run_case(case: dict[str, Any]) -> Outcome:
     hedges = sum(1 for r in log if r.get("kind") == "chunk" and r.get("hop") == 0 and (r.get("attempt") or 0) >= 1)
     out.nontrivial = origin.max_chain_redirects >= 1 or bool(lying) or hedges > 0
     out.label(
+        f"via={via}",
         f"probe={probe}",
         f"path={path}",
         f"outcome={'ok' if result is not None else type(error).__name__}",
@@ -626,13 +705,16 @@ honest_cases = st.fixed_dictionaries(
 
 def _par_case(url: Any, kind: str, seed: int, ce: str, chunk: int, nchunks: int, extra: int, cfg: Any, validator: Any, script: Any, slow: list[int]) -> dict[str, Any]:
     cfg = dict(cfg, chunk=chunk, threshold=0)
-    script = dict(script, chunk_faults=list(script["chunk_faults"]) + [{"idx": i % nchunks, "attempt": 0, "kind": "honest", "delay": 500.0} for i in slow])
+    total_chunks = nchunks + (1 if extra else 0)
+    faults = [dict(f, idx=f["idx"] % total_chunks) for f in script["chunk_faults"]]
+    script = dict(script, chunk_faults=faults + [{"idx": i % total_chunks, "attempt": 0, "kind": "honest", "delay": 500.0} for i in slow])
     return {"url": url, "obj": {"size": chunk * nchunks + extra, "kind": kind, "seed": seed, "ce": ce}, "cfg": cfg, "validator": validator, "script": script}
 
 
 _par_fault = st.one_of(
     st.tuples(st.just(("chunk_faults", "+")), _slow_chunk),
-    st.tuples(st.just(("chunk_faults", "+")), _slow_chunk),
+    st.tuples(st.just(("chunk_faults", "+")), _chunk_fault),
+    st.tuples(st.just(("chunk_faults", "+")), _chunk_fault),
     st.tuples(st.just(("chunk_faults", "+")), _chunk_fault),
     st.tuples(st.tuples(st.just("redirects"), st.just("chunk")), _redir_ok),
     st.tuples(st.tuples(st.just("redirects"), st.just("chunk")), _redir_bad),
@@ -655,7 +737,25 @@ parallel_cases = st.builds(
 )
 
 
+_small_obj = st.fixed_dictionaries(
+    {"size": st.one_of(st.integers(0, 2000), st.sampled_from([0, 1, 100, 1000])), "kind": st.sampled_from(["sha", "text"]), "seed": st.integers(0, 3), "ce": st.sampled_from(["none", "none", "gzip", "zstd"])}
+)
+resolve_cases = st.fixed_dictionaries(
+    {
+        "via": st.just("resolve"),
+        "sha": st.booleans(),
+        "retries": st.sampled_from([0, 1, 2, 2]),
+        "url": _url,
+        "obj": _small_obj,
+        "cfg": st.one_of(_roomy_cfg, _roomy_cfg, _cfg),
+        "validator": _validator,
+        "script": _scripts(0, 2),
+    }
+)
+
+
 def main(chk: Check) -> None:
-    chk.explore("faults", cases, run_case, quick=600, thorough=14000)
-    chk.explore("honest", honest_cases, run_case, quick=250, thorough=5000)
-    chk.explore("parallel", parallel_cases, run_case, quick=350, thorough=7000)
+    chk.explore("faults", cases, run_case, quick=1200, thorough=16000)
+    chk.explore("honest", honest_cases, run_case, quick=400, thorough=5000)
+    chk.explore("parallel", parallel_cases, run_case, quick=700, thorough=9000)
+    chk.explore("resolve", resolve_cases, run_case, quick=300, thorough=5000)
